@@ -214,89 +214,183 @@ def run_coeffs(ctx, fs):
 
 
 
-# ------------------------------------------------------------------ RotationMap (genHInfo / apply)
+# ------------------------------------------------------------------ RotationMap (genHInfo / apply / constructor)
 
 class RotCase:
-    def __init__(self, cid, n, it, mapmode, angle, ext, data, coef):
-        self.cid, self.n, self.it, self.mapmode, self.angle, self.ext, self.data, self.coef = cid, n, it, mapmode, angle, ext, data, coef
+    """RotationMap(in, out, xs, ys, angle, it, clamp, rms) on an n x n phase space; data[i0*ys+j0] is the field value at (i0, j0)"""
+    def __init__(self, cid, n, xs, ys, it, rms, clamp, angle, ext, data, coef, aim=""):
+        self.cid, self.n, self.xs, self.ys, self.it, self.rms, self.clamp = cid, n, xs, ys, it, rms, clamp
+        self.angle, self.ext, self.data, self.coef, self.aim = angle, ext, data, coef, aim
 
     def impl_text(self):
-        return "rot %s %d %d %d %s %s %s\n" % (self.cid, self.n, self.it, self.mapmode, fhex(self.angle),
-                                               " ".join(fhex(e) for e in self.ext), " ".join(fhex(v) for v in self.data))
+        return "rotg %s %d %d %d %d %d %d %s %s %s\n" % (self.cid, self.n, self.xs, self.ys, self.it, self.rms, 1 if self.clamp else 0,
+                                                     fhex(self.angle), " ".join(fhex(e) for e in self.ext), " ".join(fhex(v) for v in self.data))
 
     def replay(self):
-        return dict(kind="rot", n=self.n, it=self.it, mapmode=self.mapmode, angle=fhex(self.angle), ext=[fhex(e) for e in self.ext],
-                    coef=self.coef, data=[fhex(v) for v in self.data] if self.coef is None else "polynomial")
+        return dict(kind="rot", n=self.n, xs=self.xs, ys=self.ys, it=self.it, rotmapsize=self.rms, clamp=self.clamp, angle=fhex(self.angle),
+                    ext=[fhex(e) for e in self.ext], coef=self.coef, aim=self.aim,
+                    data=[fhex(v) for v in self.data] if self.coef is None else "polynomial")
 
 
 def rot_cases(ctx, count):
+    """aimed at the case splits of genHInfo / apply / the constructor: angle 0 (identity), +-pi/2 and pi (whole-cell maps when the
+    extents are symmetric), small and random angles (cells whose stencil leaves the grid, cells whose origin leaves it), it = 1..4,
+    precomputed table and on-the-fly map, clamp on (cubic + table; data with overshoot: isolated peaks, signed data, all-zero
+    neighbourhoods), refused clamp configurations, sizes xs != ys (the constructor takes them separately), shifted extents"""
     rng = ctx.rng
     import math
     cases = []
+    angles = [0.0, math.pi / 2, -math.pi / 2, math.pi, 0.05, -0.05, 0.2, -0.3]
     for i in range(count):
-        n = rng.choice(range(6, 15))
-        it = rng.choice([1, 2, 3, 4])
-        mapmode = rng.choice([0, 1, 1])
-        angle = f32(rng.choice([0.0, math.pi / 2, math.pi, 0.05, 0.2, -0.3, rng.uniform(-1.5, 1.5), rng.uniform(0.01, 0.4)]))
-        ext = rng.choice([(-6.0, 6.0, -6.0, 6.0), (-5.0, 7.0, -6.0, 6.0), (-4.0, 4.0, -3.0, 5.0), (-6.0, 6.0, -8.0, 4.0)])
-        if rng.random() < 0.6:
-            coef = [[rng.randint(-2, 2) for _ in range(it)] for _ in range(it)]     # coef[k][l] x^k y^l
-            data = [float(sum(coef[k][l] * x ** k * y ** l for k in range(it) for l in range(it))) for x in range(n) for y in range(n)]
+        it = rng.choice([1, 2, 3, 4, 4])
+        sq = rng.random() < 0.6
+        xs = rng.choice(range(6, 15))
+        ys = xs if sq else rng.choice([y for y in range(5, 15) if y != xs])
+        n = max(xs, ys)
+        table = rng.random() < 0.65
+        rms = xs * ys if table else 0
+        clamp = False
+        aim = []
+        r = rng.random()
+        if it == 4 and table and r < 0.6:
+            clamp = True
+            aim.append("clamp")
+        elif r > 0.93:
+            clamp = True                      # refused by the constructor unless cubic with a table
+            aim.append("clamp-refused" if not (it == 4 and table) else "clamp")
+        angle = f32(rng.choice(angles + [rng.uniform(-1.5, 1.5), rng.uniform(0.01, 0.4)]))
+        ext = rng.choice([(-6.0, 6.0, -6.0, 6.0), (-6.0, 6.0, -6.0, 6.0), (-5.0, 7.0, -6.0, 6.0), (-4.0, 4.0, -3.0, 5.0), (-6.0, 6.0, -8.0, 4.0)])
+        data = [0.0] * (n * n)
+        coef = None
+        if clamp or rng.random() < 0.4:
+            kind = rng.choice(["peaks", "signed", "dense"])
+            for g in range(xs * ys):
+                if kind == "peaks":
+                    data[g] = float(rng.randint(1, 8)) if rng.random() < 0.12 else 0.0
+                elif kind == "signed":
+                    data[g] = float(rng.randint(-8, 8)) if rng.random() < 0.6 else 0.0
+                else:
+                    data[g] = float(rng.randint(0, 8))
+            aim.append(kind)
         else:
-            coef = None
-            data = [float(rng.randint(-8, 8)) if rng.random() < 0.6 else 0.0 for _ in range(n * n)]
-        cases.append(RotCase("r%d" % i, n, it, mapmode, angle, ext, data, coef))
+            coef = [[rng.randint(-2, 2) for _ in range(it)] for _ in range(it)]     # coef[k][l] x^k y^l
+            for x in range(xs):
+                for y in range(ys):
+                    data[x * ys + y] = float(sum(coef[k][l] * x ** k * y ** l for k in range(it) for l in range(it)))
+        if not sq:
+            aim.append("rect")
+        cases.append(RotCase("r%d" % i, n, xs, ys, it, rms, clamp, angle, ext, data, coef, ",".join(aim)))
         ctx.count("rot:it%d" % it)
-        ctx.count("rot:map%d" % mapmode)
+        ctx.count("rot:%s" % ("table" if table else "onthefly"))
+        if clamp:
+            ctx.count("rot:clamp")
+        if not sq:
+            ctx.count("rot:rect")
     return cases
 
 
 def run_rot(ctx, cases):
-    """RotationMap through the implementation, the model on the implementation's own (cos, sin,
-    axes); table index exact, weights and outputs in tolerance; oracles: weights of a fully
-    interior grid point sum to one, polynomial fields x^k y^l (k,l < it) are reproduced at the
-    rotated coordinate of every fully interior point."""
+    """RotationMap through the implementation; the model ASSEMBLED FROM THE GENERATED DEFINITIONS (Model/RotationGen.v over
+    Gen_Rotation.v) and the hand-written model (Model/Rotation.v) on the implementation's own (cos, sin, axes).  Members, refusals
+    and table indices exact; weights and outputs in tolerance; generated and hand-written model identical.  Oracles on the
+    implementation: every table index inside the grid, weights of a fully interior grid point sum to one, polynomial fields
+    x^k y^l (k,l < it) reproduced at the rotated coordinate of every fully interior point (unclamped maps)."""
+    import math
     tg = ctx.build()
     rc, out, err = run_driver(tg["impl_kick"], "".join(c.impl_text() for c in cases))
     if rc != 0:
-        raise RuntimeError("impl_kick (rot) failed rc=%d: %s" % (rc, err[-1500:]))
+        # the implementation died on one of the cases (the maps are constructed with the table size their constructor documents,
+        # rotmapsize = xs*ys or 0): find it and report it as what it is
+        for c in cases:
+            rc1, out1, err1 = run_driver(tg["impl_kick"], c.impl_text())
+            if rc1 != 0:
+                ctx.violation("impl-oracle", "RotationMap constructor/apply terminates abnormally (exit status %d: a negative value is the signal, "
+                              "-11 = invalid memory access) on a configuration its constructor accepts" % rc1, case=c.replay(),
+                              observed=dict(status=rc1, stderr=err1[-300:]), expected="table written and read inside _hinfo",
+                              sig=dict(kind="rot", clause="memory"))
+                return [dict(case=c.replay(), detail=dict(what="implementation crashed", status=rc1), sig=dict(kind="rot", stage="correspondence", what="crash"))]
+        raise RuntimeError("impl_kick (rot) failed rc=%d on the whole case set but on no single case: %s" % (rc, err[-1500:]))
     impl = parse_cases(out)
     mtext = []
+    live = []
+    dis = []
     for c in cases:
         r = impl[c.cid]
+        refused = bool(c.clamp and not (c.it == 4 and c.rms > 0))      # what the model's generated refusal test must say too
+        thrown = r["thrown"][0][0] == "1"
+        if thrown:
+            # the model side of a refused configuration needs no axes: members only (dummy parameters)
+            one, zero = qtok(Fraction(1)), qtok(Fraction(0))
+            mtext.append("rotg %s %d %d %d %d %d 0 %s %s %s\n" % (c.cid, c.xs, c.ys, c.it, c.rms, 1 if c.clamp else 0,
+                                                                 " ".join([one, zero, one, one, zero, zero]), " ".join([zero] * c.xs), " ".join([zero] * c.ys)))
+            continue
+        live.append(c)
         par = [parse_c(t) for t in r["par"][0]]
         ax = [parse_c(t) for t in r["ax"][0]]
         ay = [parse_c(t) for t in r["ay"][0]]
-        mtext.append("rot %s %d %d %s %s %s %s\n" % (c.cid, c.n, c.it, " ".join(qtok(v) for v in par), " ".join(qtok(v) for v in ax),
-                                                     " ".join(qtok(v) for v in ay), " ".join(qtok(Fraction(v)) for v in c.data)))
-    rc, out, err = run_driver(model_driver_path("kick"), "".join(mtext))
+        mtext.append("rotg %s %d %d %d %d %d %d %s %s %s %s\n" % (c.cid, c.xs, c.ys, c.it, c.rms, 1 if c.clamp else 0, len(c.data),
+                                                              " ".join(qtok(v) for v in par), " ".join(qtok(v) for v in ax),
+                                                              " ".join(qtok(v) for v in ay), " ".join(qtok(Fraction(v)) for v in c.data)))
+    rc, out, err = run_driver(model_driver_path("rot"), "".join(mtext))
     if rc != 0:
-        raise RuntimeError("model_kick (rot) failed rc=%d: %s" % (rc, err[-1500:]))
+        raise RuntimeError("model_rot failed rc=%d: %s" % (rc, err[-1500:]))
     model = parse_cases(out)
-    dis = []
     for c in cases:
-        n, it = c.n, c.it
-        ip = it * it
         r, m = impl[c.cid], model[c.cid]
+        mm = [int(t, 16) for t in m["members"][0]]
+        thrown = r["thrown"][0][0] == "1"
+        if thrown != (mm[6] == 1):
+            dis.append(dict(case=c.replay(), detail=dict(impl_throws=thrown, generated_refusal_test=mm[6] == 1),
+                            sig=dict(kind="rot", stage="correspondence", what="refusal")))
+            continue
+        if thrown:
+            ctx.count("rot:refused")
+            ctx.evaluations += 1
+            continue
+        im = [int(t) for t in r["members"][0]]
+        if im != mm[:6]:
+            dis.append(dict(case=c.replay(), detail=dict(impl_members=im, generated_members=mm[:6],
+                                                         order="xsize ysize it ip rotmapsize clamp"),
+                            sig=dict(kind="rot", stage="correspondence", what="members")))
+            continue
+        xs, ys, it = c.xs, c.ys, c.it
+        ip = it * it
+        ncell = xs * ys
         defined = [t == "1" for t in m["defined"][0]]
         mt = m["table"][0]
         mtab = [(int(mt[k], 16), parse_q(mt[k + 1])) for k in range(0, len(mt), 2)]
-        mout = [parse_q(t) for t in m["out"][0]]
+        ht = m["htable"][0]
+        htab = [(int(ht[k], 16), parse_q(ht[k + 1])) for k in range(0, len(ht), 2)]
+        mo = m["out"][0]
+        mcell = [int(mo[k], 16) for k in range(0, len(mo), 2)]
+        mout = [parse_q(mo[k + 1]) for k in range(0, len(mo), 2)]
+        hout = [parse_q(t) for t in m["hout"][0]]
         iout = [parse_c(t) for t in r["out"][0]]
         itab = None
-        if c.mapmode:
+        if c.rms:
             tt = r["table"][0]
             itab = [(int(tt[k]), parse_c(tt[k + 1])) for k in range(0, len(tt), 2)]
         par = [parse_c(t) for t in r["par"][0]]
         ax = [parse_c(t) for t in r["ax"][0]]
         ay = [parse_c(t) for t in r["ay"][0]]
         cs, sn, d0, d1, z0, z1 = [float(v) for v in par]
-        bad = False
         cdis = False
-        for g in range(n * n):
+        if mcell != list(range(ncell)) or len(mout) != ncell:
+            dis.append(dict(case=c.replay(), detail=dict(what="the generated apply does not write cells 0..xs*ys-1 in order", cells=mcell[:8]),
+                            sig=dict(kind="rot", stage="correspondence", what="cells")))
+            continue
+        for g in range(ncell):
             if not defined[g]:
-                continue          # negative float -> unsigned conversion: undefined behaviour (C17)
+                continue          # float -> unsigned conversion outside (-1, 2^32): undefined behaviour (C17)
             ent = mtab[g * ip:(g + 1) * ip]
+            # generated model == hand-written model (theorem C02_rot_generated_is_model, here on this run's inputs)
+            if ent != htab[g * ip:(g + 1) * ip] or mout[g] != hout[g]:
+                if not cdis:
+                    dis.append(dict(case=c.replay(), detail=dict(point=g, what="generated and hand-written model differ",
+                                                                 generated=[[i, str(w)] for i, w in ent][:4], hand=[[i, str(w)] for i, w in htab[g * ip:(g + 1) * ip]][:4],
+                                                                 out=[str(mout[g]), str(hout[g])]),
+                                    sig=dict(kind="rot", stage="correspondence", what="generated-vs-hand")))
+                cdis = True
             if itab is not None:
                 for j in range(ip):
                     (ii, iw), (mi, mw) = itab[g * ip + j], ent[j]
@@ -306,10 +400,16 @@ def run_rot(ctx, cases):
                                             sig=dict(kind="rot", stage="correspondence", what="table")))
                         cdis = True
                         break
+                # oracle (C17 flavour): every index the table holds addresses the xs*ys grid
+                worst = max(i for i, _ in itab[g * ip:(g + 1) * ip])
+                if worst >= ncell:
+                    ctx.violation("impl-oracle", "RotationMap table entry points outside the grid", case=c.replay(),
+                                  observed=dict(point=g, index=worst), expected="< %d" % ncell, sig=dict(kind="rot", clause="index-range"))
+                    cdis = True
             cond = sum(abs(w) * abs(Fraction(c.data[idx])) for idx, w in ent)
             # the float weights carry an ABSOLUTE error of a few 2^-24 (1 - f*f for f near 1 cancels: relative to the
             # weight the error is unbounded), and each is multiplied by its data value: 16*2^-24*Sum|data_j| over the
-            # stencil in addition to the relative part
+            # stencil in addition to the relative part (the clamp is 1-Lipschitz in the interpolated value: same tolerance)
             cond2 = sum(abs(Fraction(c.data[idx])) for idx, w in ent if not (idx == 0 and w == 0))
             tol = Fraction(48, 2 ** 24) * max(cond, 1) + Fraction(16, 2 ** 24) * cond2
             if isinstance(iout[g], str) or abs(iout[g] - mout[g]) > tol:
@@ -317,24 +417,25 @@ def run_rot(ctx, cases):
                     dis.append(dict(case=c.replay(), detail=dict(point=g, impl=str(iout[g]), model=str(mout[g]), tol=str(tol)),
                                     sig=dict(kind="rot", stage="correspondence", what="out")))
                 cdis = True
+            if c.clamp:
+                ctx.case_done(("rot-clamp", c.cid, g), mout[g] != sum(Fraction(c.data[idx]) * w for idx, w in ent))
             # ---- oracles on the implementation (fully interior stencil only)
-            x0, y0 = divmod(g, n)
+            x0, y0 = divmod(g, ys)
             x1r = f32(f32(f32(f32(cs * float(ax[x0])) - f32(sn * float(ay[y0]))) / d0) + z0)
             y1r = f32(f32(f32(f32(sn * float(ax[x0])) + f32(cs * float(ay[y0]))) / d1) + z1)
-            import math
             x1, y1 = math.floor(x1r), math.floor(y1r)
             cen = kc.centre(it)
-            interior = (0 <= x1 - cen and x1 + it - 1 - cen < n and 0 <= y1 - cen and y1 + it - 1 - cen < n)
+            interior = (0 <= x1 - cen and x1 + it - 1 - cen < xs and 0 <= y1 - cen and y1 + it - 1 - cen < ys)
             if not interior:
+                ctx.count("rot:edge-cell")
                 continue
             if itab is not None:
                 sw = sum(w for _, w in itab[g * ip:(g + 1) * ip])
                 if abs(sw - 1) > Fraction(64, 2 ** 24):
                     ctx.violation("impl-oracle", "rotation weights of an interior grid point do not sum to one", case=c.replay(),
                                   observed=dict(point=g, sum=str(sw)), expected="1 +- 64*2^-24", sig=dict(kind="rot", clause="unity", it=it))
-                    bad = True
                     break
-            if c.coef is not None:
+            if c.coef is not None and not c.clamp:
                 X, Y = Fraction(x1r), Fraction(y1r)
                 exp = sum(c.coef[k][l] * X ** k * Y ** l for k in range(it) for l in range(it))
                 scale = sum(abs(c.coef[k][l]) * (abs(X) + 2) ** k * (abs(Y) + 2) ** l for k in range(it) for l in range(it))
@@ -342,7 +443,6 @@ def run_rot(ctx, cases):
                     ctx.violation("impl-oracle", "polynomial field x^k y^l (k,l < %d) not reproduced at the rotated coordinate" % it,
                                   case=c.replay(), observed=dict(point=g, value=str(iout[g])), expected=str(exp),
                                   sig=dict(kind="rot", clause="poly", it=it))
-                    bad = True
                     break
                 ctx.case_done(("rot", c.cid, g), it > 1 and c.angle != 0)
         ctx.evaluations += 1
@@ -434,8 +534,12 @@ def run(ctx):
                 "the float sum n/2+offset and of the offset itself, tiny offsets down to the denormals), polynomial fields (also under ulp offsets), "
                 "sequences (several swapOffset()+apply() on ONE KickMap: rows exactly 0, all 0, non-zero whole shifts, fractional shift of a polynomial; "
                 "every step against the stateless model and through the whole-shift / polynomial oracles); "
-                "coefficient samples in [0,1); RotationMap cases n 6..14, it 1..4, angles 0, +-small, pi/2, pi, random, shifted extents, precomputed and on-the-fly map, polynomial x^k y^l and random data. Non-trivial: non-zero shift on non-zero data / degree>=1 with fractional offset / it>1 and f!=0.")
-    coq = vp_coq.full_check("C02", ctx, fams=("kick", "round"))
+                "coefficient samples in [0,1); RotationMap cases (constructor + apply through the model assembled from the GENERATED Gen_Rotation.v "
+                "and through the hand-written model): sizes xs, ys 5..14 (40% xs != ys), it 1..4, angles 0, +-pi/2, pi, +-small, random, shifted extents, "
+                "precomputed table and on-the-fly map, clamp on (cubic + table: isolated peaks, signed and dense data), refused clamp configurations, "
+                "polynomial x^k y^l and random data. Non-trivial: non-zero shift on non-zero data / degree>=1 with fractional offset / it>1 and f!=0 / "
+                "clamped cells whose value the clamp changed.")
+    coq = vp_coq.full_check("C02", ctx, fams=("kick", "round", "rot"))
     nk = 120 if ctx.quick() else 3000
     cases = kc.gen_cases(ctx, nk, streams=("exact", "whole", "tol", "whole")) + kc.with_rng(ctx, 101, kc.edge_cases, ctx, 52 if ctx.quick() else 800)
     cases += kc.with_rng(ctx, 102, kc.ulp_cases, ctx, 16 if ctx.quick() else 400)
@@ -464,11 +568,26 @@ def run(ctx):
     dis += run_rot(ctx, rc)
     ctx.sample(rc[0].replay() if rc[0].coef is not None else dict(rc[0].replay(), data="(random integers)"))
     ctx.extra["correspondence_disagreements"] = len(dis)
+    # downgrade rule of DESIGN 2.2 for translate/rotation2coq.py: when it no longer recognises RotationMap.cpp (a restructuring outside its
+    # idioms) the last-good Gen_Rotation.v keeps the development building; if every theorem still checks (about the last-good definitions)
+    # AND the map assembled from those definitions agrees with the implementation on every RotationMap case of this run (members, refusals,
+    # table indices exactly, weights and outputs in tolerance, table and on-the-fly, clamped and not, square and not) and with the
+    # hand-written model, and every oracle holds, the property is shown through tie 2 and the downgrade is recorded.
+    failed = [g for g, st in coq["gen"].items() if st.startswith("failed")]
+    if failed == ["Gen_Rotation"] and coq["make_ok"] and coq["props"]["ok"] and not coq["forbidden"] and coq["extract_ok"] \
+            and not dis and not ctx.violations and ctx.evaluations > 0 and len(rc) >= 40:
+        ctx.extra["translators"]["Gen_Rotation"] = "downgraded-to-correspondence (" + coq["gen"]["Gen_Rotation"][:200] + ")"
+        ctx.notes.append("Gen_Rotation: translator failed; the map assembled from the last-good generated definitions agrees with the implementation "
+                         "and with the hand-written model on every RotationMap case of this run and every oracle holds: downgraded to tie 2")
+        coq = dict(coq, ok=True)
     rnd.trusted(ctx)
     ctx.assumptions += ["exact-arithmetic model; the rounding of the interpolation weights is bounded by theorem (C02_weights_*_rounded, "
                         "C02_cell_table_sound) and the implementation is checked against those bounds; kick/rotation outputs still use the "
                         "exact/tolerance streams (DESIGN 3)",
-                        "whole-shift theorem proved for n <= 4096 (kernel sweep of the float rounding on [0,4096))"]
+                        "whole-shift theorem proved for n <= 4096 (kernel sweep of the float rounding on [0,4096))",
+                        "RotationMap: Gen_Rotation.v is instantiated with binary32 rounding (rnd32) at every operation that reaches the std::modf split and exact "
+                        "arithmetic for weights and the accumulation (tolerance stream); the float -> unsigned conversion of a coordinate outside (-1, 2^32) is "
+                        "undefined behaviour and such cells are skipped (rot_defined); RotationMap is not used by main()"]
     coq = kc.downgrade_usm(ctx, coq, dis, validated=len(cases) > 0)
     conclude(ctx, coq, dis)
 
